@@ -65,7 +65,7 @@ static const transform &current_transform()
 	return dbl;
 }
 
-static linepart::array *arr;
+static linepart::array *arr, *arr2;
 
 /* strict decimal digits, at most 18 */
 static int parse_digits(const char *s, size_t n, unsigned long long *v)
@@ -140,7 +140,7 @@ int main(void)
 		const char *op = drv_w[1];
 		size_t d;
 		if (!strcmp(op, "new") && drv_nw == 2) {
-			delete arr;
+			delete arr; delete arr2; arr2 = 0;
 			arr = new linepart::array;
 			for (int i = 0; i < 3; i++) { have_range[i] = false; xdata[i].clear(); }
 			xlen = 0; trkind = 0;
@@ -289,6 +289,30 @@ int main(void)
 			bool a = lp.set_cut((float) dv), b = lp.set_trim((float) dv);
 			printf("R %s cut=%u trim=%u | C - | I -\n", (a && b) ? "ok" : (a || b) ? "mixed" : "refused", lp._cut, lp._trim);
 		}
+		else if (!strcmp(op, "share") && drv_nw == 2) {
+			/* a second handle on the same parts (the part array of a copied polyline): the buffer is shared */
+			delete arr2;
+			arr2 = new linepart::array(*arr);
+			puts("R ok | C - | I -");
+		}
+		else if ((!strcmp(op, "set2") || !strcmp(op, "apply2") || !strcmp(op, "dump2")) && arr2) {
+			/* operations on the second handle: the first one keeps its parts */
+			linepart::array *keep = arr;
+			bool ok = true;
+			size_t n = 0;
+			if (op[0] == 's') {
+				if (drv_nw != 3 || drv_parse_nat(drv_w[2], &n) || n > 400000) { puts("bad-op"); continue; }
+				ok = arr2->set((long) n);
+			}
+			else if (op[0] == 'a') {
+				if (drv_nw != 3 || drv_parse_nat(drv_w[2], &d) || d >= 3 || !arr2->length()) { puts("bad-op"); continue; }
+				ok = arr2->apply(current_transform(), (int) d, span<const double>(xdata[d].data(), (long) xdata[d].size()));
+			}
+			else if (drv_nw != 2) { puts("bad-op"); continue; }
+			arr = arr2;
+			dump(ok ? "ok" : "refused", 0);
+			arr = keep;
+		}
 		else if (!strcmp(op, "dump") && drv_nw == 2) dump("ok", xlen);
 		else if (!strcmp(op, "poly") && drv_nw == 2) {
 			/* walk the parts as polyline::iterator does, over a point array of length_user() entries */
@@ -309,6 +333,6 @@ int main(void)
 		}
 		else puts("bad-op");
 	}
-	delete arr;
+	delete arr; delete arr2;
 	return 0;
 }
